@@ -264,7 +264,7 @@ func runC15(t *testing.T, tape *sim.Tape, tier string) *Outcome {
 		atBoundary := strings.HasPrefix(lt.Where, "op:") || lt.Where == "idle"
 		if atBoundary && running && !inOp {
 			checkRegistry("while running")
-			if tape.Draw(12, "midprobe") == 0 {
+			if tape.Draw(12, "midprobe") == 11 { // 0 must stay the cheap choice: minimised tapes are mostly zeros
 				checkRunning("while running")
 			}
 		}
